@@ -1,11 +1,47 @@
+//! mon-genesis: runtime monitors for
+//!   C39 snapshot export followed by regenesis reproduces the chain state
+//!   C40 genesis import can be interrupted and resumed without changing the result
+
 use vcommon::*;
+
+mod c39;
+mod c40;
+mod dump;
+mod faultdb;
+mod model;
+mod snapio;
 
 fn main() {
     let args = Args::parse();
     install_quiet_panic_hook();
     let report = Report::new(&args.property);
-    match args.property.as_str() {
-        other => report.inconclusive(format!("property {other} not implemented in this monitor")),
+
+    // Anything inside fuel-core that asks for a temporary directory (e.g. a
+    // default rocksdb) must land under the scratch dir as well.
+    let _ = std::fs::create_dir_all(&args.scratch);
+    // SAFETY: no other thread exists yet.
+    unsafe {
+        std::env::set_var("TMPDIR", &args.scratch);
     }
-    report.finish(&args, "exploration", "", false, &[]);
+
+    if let Err(e) = dump::column_lists_complete() {
+        report.inconclusive(format!("harness column lists are out of date: {e}"));
+        report.finish(&args, "exploration", "", false, &[]);
+        return;
+    }
+
+    match args.property.as_str() {
+        "C39" => {
+            let (rule, assumptions) = c39::run(&args, &report);
+            report.finish(&args, "exploration", &rule, false, &assumptions);
+        }
+        "C40" => {
+            let (rule, assumptions, exhaustive) = c40::run(&args, &report);
+            report.finish(&args, "fault_enumeration", &rule, exhaustive, &assumptions);
+        }
+        other => {
+            report.inconclusive(format!("property {other} not implemented in this monitor"));
+            report.finish(&args, "exploration", "", false, &[]);
+        }
+    }
 }
